@@ -30,8 +30,13 @@ def bodies_mentioning(crate, static):
 
 
 def make_engine(crate, accesses, once_sites):
+    last = {}
     def hook(kind, t, facts, loc):
-        accesses.append((kind, t, facts, loc))
+        # keep the LAST visit of each access site (most general state of the fixpoint iteration)
+        k = (kind, t, loc)
+        if k in last: accesses[last[k]] = (kind, t, facts, loc)
+        else:
+            last[k] = len(accesses); accesses.append((kind, t, facts, loc))
 
     def call_once_model(eng, st, args, site):
         once_ref, clo = args[0], args[1]
